@@ -21,15 +21,19 @@ def rcs(s):
     return ''.join(COMP[c] for c in reversed(s))
 
 
-def run_lo(facts, samples, k, threads=1, missing=0.1):
+def run_lo(facts, samples, k, threads=1, missing=0.1, reference=None):
+    """reference: None, or (name, sequence) of a single-record reference FASTA handed over with -r"""
+    from ..absint.interp import some
     I = Interp(facts, {'IntT': 'u64'})
     I.files = {}
     I.out_files = {}
-    I.max_steps = 400_000_000
+    I.max_steps = 800_000_000
     arr = e2e.build_array(facts, I, samples, k, 1)
+    if reference is not None:
+        I.files['ref.fa'] = ('fasta', [(reference[0], reference[1], None)])
     cf = [x['name'] for x in facts.adt('skalo::utils::Config')['variants'][0]['fields']]
     vals = dict(input_file=StrV(list('in.skf')), output_name=StrV(list('out')), max_missing=float(missing), max_depth=BV(64, 4),
-                max_indel_kmers=BV(64, 2), nb_threads=BV(64, threads), reference_genome=NONE)
+                max_indel_kmers=BV(64, 2), nb_threads=BV(64, threads), reference_genome=some(StrV(list('ref.fa'))) if reference is not None else NONE)
     if sorted(vals) != sorted(cf):
         raise AnchorLost('skalo Config fields are %s' % cf)
     cfg = Agg('adt:skalo::utils::Config', 0, [vals[n] for n in cf])
@@ -154,6 +158,105 @@ def check_snps(facts, chk, rule, tier):
     else:
         chk.ok(rule, key, 'generic_modes::skalo', 'ska lo interpreted end to end: exactly one well-formed column per planted isolated SNP with every sample\'s true base (up to order / strand), names in order, '
                'on %d runs (k=%d, 3-4 samples, 2-3 sites >= 2k apart, alternate samples reverse-complemented)' % (n, k), evals=n)
+
+
+def check_snps_ref(facts, chk, rule, tier):
+    """`ska lo -r <reference>`: every planted site is reported once, at its true coordinate on the reference, REF = the reference base,
+    ALT = the distinct other alleles (each once), every genotype decodes to the sample's true base; the pseudo-genomes have the
+    reference length and carry each sample's true base at every called position.  Sites are bi- and tri-allelic, the alternate
+    alleles interleaved over the samples; alternate samples are reverse-complemented."""
+    key = rule + ':snps-ref'
+    k = 9
+    rng = random.Random(23)
+    bad = []
+    n = 0
+    sets = 1 if tier != 'thorough' else 4
+    for case in range(sets):
+        ns = 5 if case % 2 == 0 else 4
+        sites = [14, 34, 54]
+        L = 70
+
+        def variants(s, sites=sites):
+            return [s[:st] + b + s[st + 1:] for st in sites for b in 'ACGT' if b != s[st]]
+        anc = ancestor(L, k, rng, variants)
+        # site 0 biallelic, sites 1-2 tri-allelic with the alternates interleaved in sample order (x y x y ..), one sample keeps the reference base
+        truth = []
+        for j, st in enumerate(sites):
+            oth = [b for b in 'ACGT' if b != anc[st]]
+            rng.shuffle(oth)
+            if j == 0:
+                col = [anc[st] if i % 2 == 0 else oth[0] for i in range(ns)]
+            else:
+                col = [anc[st]] + [oth[i % 2] for i in range(ns - 1)]
+                if j == 2:
+                    col[-1] = anc[st]
+            truth.append(col)
+        samples = []
+        for i in range(ns):
+            g = list(anc)
+            for st, col in zip(sites, truth):
+                g[st] = col[i]
+            g = ''.join(g)
+            samples.append(('s%d' % i, [rcs(g) if i % 2 else g]))
+        n += 1
+        try:
+            out = run_lo(facts, samples, k, 1, reference=('anc', anc))
+        except Panic as p:
+            bad.append((samples, 'ska lo -r aborts: %s' % p.kind))
+            continue
+        recs = {}
+        dup = []
+        names = None
+        for line in out.get('out_snps.vcf', '').splitlines():
+            if line.startswith('#CHROM'):
+                names = line.split('\t')[9:]
+            if line.startswith('#') or not line.strip():
+                continue
+            f = line.split('\t')
+            keyp = (f[0], int(f[1]))
+            if keyp in recs:
+                dup.append(keyp)
+            recs[keyp] = (f[3], f[4].split(','), f[9:])
+        problems = []
+        if names != [x[0] for x in samples]:
+            problems.append('VCF sample columns %s' % names)
+        if dup:
+            problems.append('positions reported twice: %s' % dup)
+        want_pos = {('anc', st + 1) for st in sites}
+        if set(recs) != want_pos:
+            problems.append('records at %s, planted sites at %s' % (sorted(recs), sorted(want_pos)))
+        for st, col in zip(sites, truth):
+            r = recs.get(('anc', st + 1))
+            if r is None:
+                continue
+            ref, alts, gts = r
+            want_alts = sorted(set(col) - {anc[st]})
+            if ref != anc[st]:
+                problems.append('%d: REF %s, the reference has %s' % (st + 1, ref, anc[st]))
+            elif sorted(alts) != want_alts:
+                problems.append('%d: ALT %s, true alternate alleles %s' % (st + 1, ','.join(alts), ','.join(want_alts)))
+            else:
+                dec = []
+                for g in gts:
+                    g0 = g.split('/')[0].split('|')[0]
+                    dec.append('?' if not g0.isdigit() else ([ref] + alts)[int(g0)] if int(g0) <= len(alts) else '?')
+                if dec != col:
+                    problems.append('%d: genotypes decode to %s, true bases %s' % (st + 1, ''.join(dec), ''.join(col)))
+        pn, ps = parse_fasta(out.get('out_pseudo_genomes.fas', ''))
+        if pn != [x[0] for x in samples] or any(len(q) != len(anc) for q in ps):
+            problems.append('pseudo-genomes: names %s lengths %s (reference length %d)' % (pn, [len(q) for q in ps], len(anc)))
+        else:
+            for st, col in zip(sites, truth):
+                got = ''.join(q[st] for q in ps)
+                if ('anc', st + 1) in recs and got != ''.join(col):
+                    problems.append('pseudo-genomes at %d carry %s, true bases %s' % (st + 1, got, ''.join(col)))
+        if problems:
+            bad.append((samples, '; '.join(problems[:3])))
+    if bad:
+        chk.violation(rule, key, where='generic_modes::skalo (reference mode)', evals=n, detail='%d of %d sample sets; first: %s; samples: %s' % (len(bad), n, bad[0][1], [(a, b[0]) for a, b in bad[0][0]]))
+    else:
+        chk.ok(rule, key, 'generic_modes::skalo (reference mode)', 'ska lo -r interpreted end to end: every planted site reported once at its reference coordinate with REF, the distinct ALT alleles and genotypes decoding to the true bases; '
+               'pseudo-genomes of reference length carrying the true bases (%d runs: bi- and tri-allelic sites with interleaved alternates, alternate samples reverse-complemented)' % n, evals=n)
 
 
 # ------------------------------------------------------------------ C18
